@@ -76,7 +76,9 @@ def parse(run, meta):
         for s in d.get('spans', []):
             ls, le = s['line_start'], s['line_end']
             o = origin[ls - 1] if 0 < ls <= len(origin) else {'kind': 'external', 'file': s.get('file_name')}
-            if not s.get('file_name', '').endswith(os.path.basename(meta['unit']) + '.rs') and not s.get('file_name', '').endswith('.rs'):
+            fname = os.path.basename(s.get('file_name', ''))
+            if fname and fname != os.path.basename(meta.get('rs', '')) and fname != meta['unit'] + '.rs':
+                # a span inside vstd / core (e.g. the `requires` of Result::unwrap): not a line of the generated unit
                 o = {'kind': 'external', 'file': s.get('file_name')}
             text = s['text'][0]['text'].strip() if s.get('text') else ''
             spans.append({'gen_line': ls, 'gen_line_end': le, 'primary': s.get('is_primary', False), 'label': s.get('label'), 'text': text, 'origin': o,
